@@ -90,9 +90,13 @@ class G:
             parts.append(f"{fn}: {lit}")
         return "{" + ", ".join(parts) + "}"
 
-    def default_for(self, t, base):
+    def default_for(self, t, base, owner=None):
         """a default literal of a 'good' shape for type t (string) or None"""
         r = self.rng
+        if base in self.inputs and owner is not None and "[" not in t:
+            order = list(self.inputs)
+            if order.index(base) <= order.index(owner):
+                return None   # object defaults only towards later types (no cyclic default chains)
         nullable = not t.endswith("!")
         if nullable and r.random() < 0.12:
             return "null"
@@ -176,14 +180,14 @@ class G:
             for fn, (t, _d) in list(self.inputs[n].items()):
                 base = self._bases[n][fn]
                 if r.random() < 0.45:
-                    d = self.default_for(t, base)
+                    d = self.default_for(t, base, n)
                     if d is not None:
                         self.inputs[n][fn] = (t, d)
         # object defaults (scalars / lists / nested objects, no enum inside): at least one candidate per scenario
         for n in names:
             for other in names:
-                if other == n or r.random() < 0.5:
-                    continue
+                if names.index(other) <= names.index(n) or r.random() < 0.4:
+                    continue   # later types only: default chains must not be cyclic
                 lit = self.object_literal(other)
                 if lit is not None and "objDefault" + other not in self.inputs[n]:
                     self.inputs[n]["objDefault" + other] = (r.choice([other, other + "!"]), lit)
